@@ -161,10 +161,16 @@ func checkC02(r *verdict.Run) {
 // runDiffSequences is the common engine of the single-connection differential checks.
 func runDiffSequences(r *verdict.Run, nseq int, seqLen func(*rand.Rand) int, universe []string, seed [][]string,
 	gen func(rng *rand.Rand, m *model.Model, keys []string) []string) {
-	perChild := 25
+	runDiffSequencesN(r, nseq, 25, 0, seqLen, universe, seed, gen)
+}
+
+// runDiffSequencesN: perChild sequences per emulator host process; shardBase separates the PRNG streams of several
+// calls within one check.
+func runDiffSequencesN(r *verdict.Run, nseq, perChild, shardBase int, seqLen func(*rand.Rand) int, universe []string, seed [][]string,
+	gen func(rng *rand.Rand, m *model.Model, keys []string) []string) {
 	nshards := (nseq + perChild - 1) / perChild
 	parallel(nshards, 16, func(shard int) {
-		rng := shardRng(r, shard)
+		rng := shardRng(r, shardBase+shard)
 		c, err := startChild(false)
 		if err != nil {
 			r.Inconclusive("cannot start child")
